@@ -239,7 +239,7 @@ def eval_log(i, data):
 
 
 def run(tier, seed):
-    params = {'u1_depth': 3, 'u2_depth': 1, 'two_depth': 2, 'u3_depth': 1} if tier == 'quick' else {'u1_depth': 4, 'u2_depth': 2, 'two_depth': 3, 'u3_depth': 1}
+    params = {'u1_depth': 3, 'u2_depth': 2, 'two_depth': 2, 'u3_depth': 1} if tier == 'quick' else {'u1_depth': 4, 'u2_depth': 2, 'two_depth': 3, 'u3_depth': 1}
     known = common.load_known()
     iocommon.scratch()
     k = 4 if tier == 'quick' else 5
